@@ -166,6 +166,32 @@ func c15Crash(kind string) {
 			// and it keeps working: the key can be written and read again
 			s.Put(b, "a/b", []byte("after"), mA)
 			s.Get(b, "a/b", "")
+			// the hierarchy of the store: a common prefix stands for keys; one without any key is the
+			// leftover of a write that never happened (known finding D34 when it is the directory of an
+			// upload that was killed)
+			{
+				dl := do(s.h, Req{Method: "GET", Path: "/" + b + "?delimiter=%2F"})
+				fl := do(s.h, Req{Method: "GET", Path: "/" + b})
+				keys := xmlContentsKeys(string(fl.Body))
+				var phantom []string
+				for _, blk := range xmlBlocks(string(dl.Body), "CommonPrefixes") {
+					for _, p := range xmlAll(blk, "Prefix") {
+						has := false
+						for _, k := range keys {
+							has = has || strings.HasPrefix(k, p)
+						}
+						if !has {
+							phantom = append(phantom, p)
+						}
+					}
+				}
+				msg := fmt.Sprintf("%s after %s: delimiter listing %d, common prefixes without a key %q (keys %q)", kind, label, dl.Status, phantom, keys)
+				if dl.Status == 200 && fl.Status == 200 && len(phantom) == 0 {
+					emit("c15", "GOOD", hs(msg))
+				} else {
+					emit("c15", "BAD", hs("S:common-prefix-without-a-key "+msg))
+				}
+			}
 			s.end()
 			nontrivial(kind + "|" + label)
 		}
